@@ -39,7 +39,7 @@ func freshTag(used map[string]bool, from int) string {
 
 func genC03(t *rapid.T) *C03Case {
 	o := gen.Opts{MaxDepth: 2, MaxItems: 3}
-	po := gen.PopOpts{Small: true, Decoys: true, PresentPct: 55, MaxEntries: 2, NoTrailerPop: true}
+	po := gen.PopOpts{Small: true, Decoys: true, PresentPct: 55, MaxEntries: 2}
 	cc := &C03Case{Stride: 1}
 	if rapid.IntRange(0, 9).Draw(t, "source") < 1 {
 		tpl, _ := pickFix44(t)
